@@ -12,7 +12,13 @@ from vlib import Outcome, ToolError, log
 
 def s5(out, module, constants, log_path, kind, wd, n=3):
     """binding self-test by trace corruption; a corruption that is NOT rejected means the trace specification does not
-    constrain that field: a defect of the machinery (exit 2), never a verdict about the code"""
+    constrain that field: a defect of the machinery (exit 2), never a verdict about the code.
+    The self-test needs a log the specification accepts as its baseline: when the code under test already violates the
+    property the corrupted line may sit in a run that was abandoned at the violation, so the self-test says nothing
+    then and must not turn the VIOLATION into a tool error."""
+    if out.violations:
+        out.cov.setdefault("binding_selftest", {})[kind] = {"skipped": "violations were found; the self-test needs an accepted baseline"}
+        return
     r = selftest.run(vlib, module, constants, log_path, kind, wd, n=n, seed=vlib.seed())
     out.cov.setdefault("binding_selftest", {})[kind] = r
     if r["mutated"] and r["rejected"] < r["mutated"]:
@@ -441,12 +447,19 @@ def check_C17(tier):
     a2 = vlib.apalache("AckFlatApa.tla", wd, ["--cinit=CInit", "--init=IndInit", "--inv=Inv", "--next=NextSym", "--length=1"])
     out.cov["apalache"] = {"inductive_invariant": "Inv (Conservation, Outstanding, ExactlyWhen, NothingBefore) for all windows "
                            "1..2^32-1 and all call sizes: Init => Inv and Inv /\\ Next => Inv'", "wall_s": round(a1["wall"] + a2["wall"], 1)}
+    t1 = vlib.tlaps(["AckFlat.tla", "AckFlatProof.tla"], "AckFlatProof.tla", wd)
+    t2 = {"wall": 0.0} if tier == "quick" else vlib.tlaps(["AckFlat.tla", "AckFlatProof.tla"], "AckFlatProof.tla", wd,
+                    mutate=("AckFlat.tla", "THEN emitted' = pend + n /\\ pend' = 0 /\\ acked' = acked + pend + n",
+                            "THEN emitted' = pend + n /\\ pend' = pend + n - win /\\ acked' = acked + pend + n"))
+    out.cov["tlaps"] = {"theorem": "Spec => []Inv for every modulus M > 1 and every call-size bound (deductive, SMT back end)",
+                        "obligations_proved": t1["obligations"], "negative_control": "window subtracted instead of reset: proof fails" if tier != "quick" else "thorough tier only",
+                        "wall_s": round(t1["wall"] + t2["wall"], 1)}
     logs = sess_logs(wd, "server", "ack", tier) + sess_logs(wd, "client", "ack", tier)
     sess_validate(out, "Trace_Server.tla", [x for x in logs if "server_" in x[0]], wd, lambda v: v["class"] == "ACK", "c17s")
     sess_validate(out, "Trace_Client.tla", [x for x in logs if "client_" in x[0]], wd, lambda v: v["class"] == "ACK", "c17c")
     s5(out, "Trace_Server.tla", {"Base": 65536}, logs[0][0], "ack", wd)
     sample_events(out, logs[0][0], ("In",), n=3)
-    out.assumptions = SESS_ASSUME + ["Apalache (SMT) for the unbounded inductive step"]
+    out.assumptions = SESS_ASSUME + ["Apalache (SMT) and TLAPS (SMT back end) for the unbounded inductive step"]
     return out.finish(rule="both real sessions; windows {1,2,3,16,17,18,100,4096,4097,2^20,2^31,2^32-1}, re-announcements, call "
                            "sizes around the thresholds; every input call judged by AckStep (exactly one leading "
                            "acknowledgement carrying the byte count iff the window is reached)")
